@@ -1011,6 +1011,25 @@ func (ev *EvalCtx) useAxiom(u *Clause) {
 		c.errorf("%s: use needs Name(args)", u.Where)
 		return
 	}
+	if e.Name == "pigeonhole" && len(e.Args) == 1 {
+		// built-in mathematical lemma (not proved by SMT): a map with n integer keys, all in [0,n), contains every key in [0,n)
+		m, err := ev.eval(e.Args[0])
+		if err != nil || m.GT == nil {
+			c.errorf("%s: use pigeonhole: %v", u.Where, err)
+			return
+		}
+		mt, ok := m.GT.Underlying().(*types.Map)
+		if !ok || c.eng.sortOf(mt.Key()) != "Int" {
+			c.errorf("%s: use pigeonhole needs a map with integer keys", u.Where)
+			return
+		}
+		dom, _, ln := c.eng.mapKeys(mt)
+		d := "(select " + c.heapTerm(ev.st, dom) + " " + m.T + ")"
+		l := "(select " + c.heapTerm(ev.st, ln) + " " + m.T + ")"
+		c.usedAxioms["pigeonhole (finite maps)"] = true
+		c.assume(ev.reach, "(=> (forall ((k! Int)) (! (=> (select "+d+" k!) (and (<= 0 k!) (< k! "+l+"))) :pattern ((select "+d+" k!)))) (forall ((k! Int)) (! (=> (and (<= 0 k!) (< k! "+l+")) (select "+d+" k!)) :pattern ((select "+d+" k!)))))")
+		return
+	}
 	if e.Name == "card" && len(e.Args) == 1 {
 		// built-in: cardinality facts of a Go map (len == 0 iff no key)
 		m, err := ev.eval(e.Args[0])
